@@ -146,6 +146,19 @@ func kinds() []kind {
 		{"alias-typedef", "TS§", "type TS§ string\n", func() []value {
 			return []value{{"a", "exact", `"a"`}, {"a b+c", "exact", `"a b+c"`}, {"", "odd", ""}}
 		}, false},
+		// slices (query only): the elements travel as repeated keys, \x1f separates them in Raw
+		{"[]string", "[]string", "", func() []value {
+			return []value{{"a", "exact", `["a"]`}, {"a\x1fb", "exact", `["a","b"]`}, {"b\x1fa\x1fb", "exact", `["b","a","b"]`}, {"a b+c\x1fü✓\x1fx=y&z", "exact", `["a b+c","ü✓","x=y&z"]`}, {"a,b", "exact", `["a,b"]`}}
+		}, false},
+		{"[]int", "[]int", "", func() []value {
+			return []value{{"1", "exact", `[1]`}, {"3\x1f-2\x1f1", "exact", `[3,-2,1]`}, {"9223372036854775807\x1f0", "exact", `[9223372036854775807,0]`}, {"1\x1fx", "reject", ""}, {"1\x1f9223372036854775808", "reject", ""}, {"1,2", "reject", ""}}
+		}, false},
+		{"[]bool", "[]bool", "", func() []value {
+			return []value{{"true\x1ffalse", "exact", `[true,false]`}, {"true\x1fmaybe", "reject", ""}}
+		}, false},
+		{"[]enum-string", "[]E§", "type E§ string\n\nconst (\n\tE§A E§ = \"a\"\n\tE§B E§ = \"b\"\n)\n", func() []value {
+			return []value{{"a\x1fb", "exact", `["a","b"]`}, {"b", "exact", `["b"]`}, {"a\x1fzz", "odd", ""}}
+		}, false},
 	}
 }
 
@@ -171,7 +184,13 @@ func buildCases(tier string) ([]scen.Case, map[string]caseInfo) {
 	n := 0
 	for _, k := range kinds() {
 		for _, loc := range []string{"Path", "Query", "Header", "FormField"} {
+			if strings.HasPrefix(k.Name, "[]") && loc != "Query" {
+				continue
+			}
 			for _, ptr := range []bool{false, true} {
+				if ptr && strings.HasPrefix(k.Name, "[]") {
+					continue
+				}
 				for _, alias := range []string{"", "x-alias"} {
 					vals := []string{""}
 					if k.Num {
@@ -332,6 +351,17 @@ func validHeaderValue(s string) bool {
 
 // goParse says what the declared Go type's strconv parser yields for raw, as argument JSON ("" = does not parse).
 func goParse(k string, raw string) string {
+	if strings.HasPrefix(k, "[]") {
+		var parts []string
+		for _, el := range strings.Split(raw, "\x1f") {
+			p := goParse(k[2:], el)
+			if p == "" {
+				return ""
+			}
+			parts = append(parts, p)
+		}
+		return "[" + strings.Join(parts, ",") + "]"
+	}
 	bitsOf := map[string]int{"int": 64, "int8": 8, "int16": 16, "int32": 32, "int64": 64, "uint": 64, "uint8": 8, "uint16": 16, "uint32": 32, "uint64": 64, "enum-int": 64}
 	switch {
 	case k == "string" || k == "enum-string" || k == "alias-typedef":
@@ -454,7 +484,16 @@ func makeReqsFor(inf map[string]caseInfo, metas map[string]reqMeta) func(scen.Ca
 				}
 				rq.URL = base + "/" + over(url.PathEscape(v.Raw))
 			case "Query":
-				if !absent {
+				if !absent && strings.HasPrefix(ci.K.Name, "[]") {
+					if overEncode {
+						return
+					}
+					var parts []string
+					for _, el := range strings.Split(v.Raw, "\x1f") {
+						parts = append(parts, url.QueryEscape(wire)+"="+url.QueryEscape(el))
+					}
+					rq.URL = base + "?" + strings.Join(parts, "&")
+				} else if !absent {
 					rq.URL = base + "?" + url.QueryEscape(wire) + "=" + over(url.QueryEscape(v.Raw))
 				}
 			case "Header":
@@ -731,7 +770,7 @@ func Main(tier, replay string) {
 	run.Outcome("canonical", int64(bound))
 	run.Outcome("expected-422", int64(rejected))
 	run.Sample(map[string]any{"scenario": cases[len(cases)/2].Desc, "values": kinds()[1].Vals()[:6]})
-	run.Bound = fmt.Sprintf("%d binding scenarios: 17 parameter kinds x {path, query, header, form} x pointer x wire alias x validator (numeric: gte=80), JSON bodies (struct, []struct, pointer; with and without a validator on @Body), several-parameter signatures (orders of four same-typed parameters from four locations, grouped and separate declarations, context in between; every parameter omitted in turn); per parameter the kind's value alphabet (boundary values that must bind exactly, values that must be refused, odd syntaxes) plus the absent request, and the absent request and one canonical value again with a decoy value under the same wire name in every other location; x 5 engines x {all generator switches off, validateResponsePayload + validateTopLevelOnlyEnum + generateEnumValidator on}", len(cases))
+	run.Bound = fmt.Sprintf("%d binding scenarios: 17 parameter kinds x {path, query, header, form}, 4 slice kinds in query (repeated keys) x pointer x wire alias x validator (numeric: gte=80), JSON bodies (struct, []struct, pointer; with and without a validator on @Body), several-parameter signatures (orders of four same-typed parameters from four locations, grouped and separate declarations, context in between; every parameter omitted in turn); per parameter the kind's value alphabet (boundary values that must bind exactly, values that must be refused, odd syntaxes) plus the absent request, and the absent request and one canonical value again with a decoy value under the same wire name in every other location; x 5 engines x {all generator switches off, validateResponsePayload + validateTopLevelOnlyEnum + generateEnumValidator on}", len(cases))
 	run.Rule = "state = (scenario, request value, engine); transition = one HTTP request served in-process by a compiled generated router with an echoing controller; validated = executions whose recorded arguments and status were compared with the binding reference model"
 	run.Assumptions = []string{"odd syntaxes ('+5', ' 5', '0x10', full-width digits, NaN, empty strings, values containing '/') are only required not to bind a silently wrong value", "value alphabets are boundary/representative, not all representable values"}
 	os.RemoveAll(scratch)
